@@ -12,6 +12,9 @@ that the seeded generator or a hash-ordered container can reach):
   ensemble      the fed-back models also score as an ensemble (mean over the models in brew's order)
   cli           the same input through the command line entry point `mokapot.mokapot.main` (with --save_models)
   subset        `subset_max_train` (a third of the rows): the sub-sampling draws of make_train_sets precede the fits
+  text_key      the table carries the optional `filename` column: read_pin puts it FIRST among the spectrum columns, so
+                the key tuple that decides the cross-validation fold (dataset.py:667-673) starts with a str — the
+                one kind of value whose builtin hash depends on PYTHONHASHSEED
   small_chunks  the six streaming constants set to small primes, so that prediction, training-set reading, the
                 confidence sort/merge and the column-dropping pass of read_pin all run over SEVERAL chunks (the same
                 constants in every run of the case: what varies is the worker count and the hash seed)
@@ -58,7 +61,7 @@ def make_table(params, r, n_spectra):
     import mkdata
 
     df = mkdata.make_psm_table(r, n_spectra=n_spectra, max_per_spectrum=2, n_feat=4, label_enc="pm1",
-                               optional=("ExpMass",), signal=4.0, letter_peptides=True, n_peptides=params["n_pep"],
+                               optional=("filename", "ExpMass") if params.get("text_key") else ("ExpMass",), signal=4.0, letter_peptides=True, n_peptides=params["n_pep"],
                                integer_scores=False, level_cols=tuple(params.get("level_cols", ())))
     # two feature columns carry a missing value, so that the feature-dropping path of read_pin runs
     # (its result must not depend on set/hash iteration order)
@@ -256,6 +259,62 @@ def cli_analysis(params, workdir: Path, fasta):
     return d
 
 
+KEY_NAMES = {
+    "plain": lambda k: f"run{k}.mzML",
+    "odd": lambda k: ["it's run.raw", 'say "a".raw', "rün é.mzML", "back\\slash.d", "a b  c.raw", "日本.raw", "x'\"y.raw"][k % 7]
+    + ("" if k < 7 else str(k)),
+}
+
+
+def make_key_table(case):
+    """table of a split-key case: which optional spectrum columns exist, what the run names look like, whether the
+    masses / retention times are whole numbers (the `repr` of the key cells differs: 'run0.mzML', 1000, 500.25,
+    np.int64(1000), np.float64(500.25) …)"""
+    import mkdata
+
+    r = random.Random(case["data_seed"])
+    df = mkdata.make_psm_table(r, n_spectra=case["n_spectra"], max_per_spectrum=case["per_spectrum"], n_feat=2,
+                               label_enc="pm1", optional=tuple(case["optional"]), signal=3.0, rowid=False)
+    scan = df["ScanNr"].to_numpy()
+    if "filename" in df.columns:
+        df["filename"] = [KEY_NAMES[case["names"]](int(s) % case["n_files"]) for s in scan]
+        if case.get("dup_scans"):      # the same scan numbers in every run: only the file name tells spectra apart
+            df["ScanNr"] = [1000 + (int(s) - 1000) // case["n_files"] for s in scan]
+    if case.get("fractional"):
+        for c in ("ExpMass", "ret_time"):
+            if c in df.columns:
+                df[c] = [float(v) + (int(s) % 4) * 0.25 for v, s in zip(df[c], scan)]
+    return df
+
+
+def split_only(case, workdir: Path):
+    """read the table and cut the folds: [[row numbers of fold 0, in the order _split returns them] …]"""
+    import numpy as np
+    import mkdata
+
+    workdir.mkdir(parents=True, exist_ok=True)
+    df = make_key_table(case)
+    if case.get("narrow") and case["fmt"] == "parquet":
+        # storage widths other than 64 bit (a Parquet file keeps them; text is always read as 64 bit)
+        df["ScanNr"] = df["ScanNr"].astype(case["narrow"][0])
+        for c in ("ExpMass", "ret_time"):
+            if c in df.columns:
+                df[c] = df[c].astype(case["narrow"][1])
+    path = mkdata.write_table(df, workdir / f"key.{case['fmt']}")
+    ds = mkdata.read_dataset(path)
+    # the cells as the key function sees them: numeric key columns widened to 64 bit (dataset.py:654-665, D53), then
+    # `.values` row by row
+    spectra = ds.spectra_dataframe[ds.spectrum_columns]
+    spectra = spectra.astype({c: (np.int64 if t.kind in "iu" else np.float64) for c, t in spectra.dtypes.items()
+                              if t.kind in "iuf"})
+    cells = [[repr(v) for v in tuple(row)] for row in spectra.values]
+    try:
+        folds = [[int(i) for i in f] for f in ds._split(case["folds"], np.random.default_rng(case["seed"]))]
+    except IndexError:
+        folds = "IndexError"
+    return dict(columns=list(ds.spectrum_columns), cells=cells, folds=folds)
+
+
 if __name__ == "__main__":
     import logging
     import warnings
@@ -267,7 +326,10 @@ if __name__ == "__main__":
     params = json.loads(sys.argv[1])
     d = Path(tempfile.mkdtemp(prefix="c08"))
     try:
-        dig, _ = analysis(params, d)
+        if params.get("kind") == "splitkey":
+            dig = split_only(params, d)
+        else:
+            dig, _ = analysis(params, d)
         print("DIGEST " + json.dumps(dig, sort_keys=True))
     finally:
         shutil.rmtree(d, ignore_errors=True)
